@@ -1,9 +1,9 @@
 (* C18 -- proofs, part 12: formatting / parsing.
    * operator<< (binary branch) prints exactly the 0/1/X view of the bit array, MSB first;
-   * two witnesses that the real behaviour (which the model follows faithfully, and which the
+   * formatState(base 16) prints the hex digit string of the array;
+   * a witness that the real behaviour (which the model follows faithfully, and which the
      harness confirms on the real library on every run) deviates from "the same operation on an
      array of bits":
-       - formatState(base 16) is ambiguous (nibble values 10..15 are printed in decimal),
        - parseBitVector rejects valid octal literals of 22 or more digits. *)
 From Coq Require Import List NArith ZArith Bool Lia Ascii String.
 From Gatery Require Import Bits BvsDefs BvsSpec BvsLeaf BvsWords BvsCopy BvsAbs BvsOps BvsEq BvsQuery.
@@ -47,37 +47,91 @@ Proof.
       destruct (nth i (splane (abs s) 0) false); reflexivity.
 Qed.
 
-(* ---- witness 1: formatState in base 16 is ambiguous ---- *)
+(* ---- formatState in base 16 (without dropLeadingZeros): one hex digit per nibble of the bit
+        array, most significant nibble first; 'X' if any of the four bits is undefined.
+        (Before /repo fff2228 nibbles above 9 were printed as two decimal digits, which made
+        0x00AB / 0x1011 and 0x1A0 / 0xB00 print alike; see the regression examples below.) ---- *)
+Definition hexdigit_spec (a : sst) (k : nat) : ascii :=          (* nibble k, counted from bit 0 *)
+  let v j := sbit a VALUE (4 * k + j) in
+  let d j := sbit a DEFINED (4 * k + j) in
+  if d 0%nat && d 1%nat && d 2%nat && d 3%nat
+  then hex_upper (N_of_bits [v 0%nat; v 1%nat; v 2%nat; v 3%nat]) else "X"%char.
+Definition formatHex_spec (a : sst) : list ascii :=
+  rev (map (hexdigit_spec a) (seq 0 (slen a / 4))).
+
+Lemma nth_map_seq' {A} (f : nat -> A) n k d : (k < n)%nat -> nth k (map f (seq 0 n)) d = f k.
+Proof.
+  intro H. rewrite (nth_indep _ d (f 0%nat)) by (rewrite map_length, seq_length; lia).
+  rewrite map_nth, seq_nth by lia. reflexivity.
+Qed.
+
+Lemma rev_map_seq {A} (f : nat -> A) n :
+  rev (map f (seq 0 n)) = map (fun i => f (n - 1 - i)%nat) (seq 0 n).
+Proof.
+  destruct n as [|m]; [reflexivity|].
+  apply (nth_ext _ _ (f 0%nat) (f 0%nat)).
+  - rewrite rev_length, !map_length. reflexivity.
+  - intros i Hi. rewrite rev_length, map_length, seq_length in Hi.
+    rewrite rev_nth by (rewrite map_length, seq_length; lia).
+    rewrite map_length, seq_length.
+    rewrite !nth_map_seq' by lia. f_equal. lia.
+Qed.
+
+Lemma nibble_abs s i :
+  wf s -> (DEFINED < length (planes s))%nat -> bsize s mod 4 = 0 -> i < bsize s / 4 ->
+  (if negb (fst (nibble s i)) then "X"%char else hex_upper (snd (nibble s i)))
+  = hexdigit_spec (abs s) (N.to_nat (bsize s / 4 - 1 - i)).
+Proof.
+  intros W P M Hi. unfold nibble, hexdigit_spec.
+  change (nrange 0 4) with [0; 1; 2; 3]. cbn [fold_left fst snd].
+  unfold VALUE, DEFINED in *.
+  rewrite !get_sbit by lia.
+  set (k := N.to_nat (bsize s / 4 - 1 - i)).
+  replace (N.to_nat (bsize s - 1 - i * 4 - 0)) with (4 * k + 3)%nat by lia.
+  replace (N.to_nat (bsize s - 1 - i * 4 - 1)) with (4 * k + 2)%nat by lia.
+  replace (N.to_nat (bsize s - 1 - i * 4 - 2)) with (4 * k + 1)%nat by lia.
+  replace (N.to_nat (bsize s - 1 - i * 4 - 3)) with (4 * k + 0)%nat by lia.
+  destruct (sbit (abs s) 1 (4 * k + 0)), (sbit (abs s) 1 (4 * k + 1)),
+           (sbit (abs s) 1 (4 * k + 2)), (sbit (abs s) 1 (4 * k + 3)); try reflexivity.
+  destruct (sbit (abs s) 0 (4 * k + 0)), (sbit (abs s) 0 (4 * k + 1)),
+           (sbit (abs s) 0 (4 * k + 2)), (sbit (abs s) 0 (4 * k + 3)); reflexivity.
+Qed.
+
+Theorem formatState_hex_abs s :
+  wf s -> (DEFINED < length (planes s))%nat -> bsize s mod 4 = 0 ->
+  formatState s 16 false = formatHex_spec (abs s).
+Proof.
+  intros W P M. unfold formatState. change (16 =? 16) with true. rewrite M. cbn [andb N.eqb].
+  set (G := fun i => if negb (fst (nibble s i)) then "X"%char else hex_upper (snd (nibble s i))).
+  assert (F : forall l acc,
+            snd (fold_left (fun (st : bool * list ascii) i =>
+                   let n := nibble s i in
+                   if negb (fst st) || negb (snd n =? 0) || (bsize s / 4 <=? i + 1)
+                   then (false, snd st ++ [if negb (fst n) then "X"%char else hex_upper (snd n)])
+                   else st) l (false, acc)) = acc ++ map G l).
+  { induction l as [|i l IH]; intro acc; cbn [fold_left map].
+    - rewrite app_nil_r. reflexivity.
+    - cbn [fst snd negb orb]. rewrite IH, <- app_assoc. reflexivity. }
+  rewrite F. cbn [app]. unfold formatHex_spec.
+  assert (El : slen (abs s) = N.to_nat (bsize s)).
+  { unfold slen. unfold DEFINED in P. apply length_splane_abs. lia. }
+  rewrite El, rev_map_seq.
+  unfold nrange. rewrite nrange_from_map, map_map. replace (bsize s / 4 - 0) with (bsize s / 4) by lia.
+  replace (N.to_nat (bsize s) / 4)%nat with (N.to_nat (bsize s / 4)).
+  2:{ rewrite N2Nat.inj_div. reflexivity. }
+  apply map_ext_in. intros i Hi. apply in_seq in Hi.
+  unfold G. rewrite nibble_abs by (try assumption; lia). f_equal. lia.
+Qed.
+
+(* regression examples for the repaired defect: these pairs used to print alike *)
 Definition st_defined (size v : N) : bvs := {| bsize := size; planes := [[v]; [N.ones size]] |}.
-
-Lemma wf_st_defined size v : size <= 64 -> 0 < size -> v < 2 ^ size -> wf (st_defined size v).
-Proof.
-  intros Hs H0 Hv. unfold wf, st_defined. cbn [bsize planes].
-  assert (P : 2 ^ size <= 2 ^ 64) by (apply N.pow_le_mono_r; lia).
-  repeat constructor; unfold wlen; cbn [length]; try lia.
-  - unfold lt64. lia.
-  - unfold lt64. rewrite N.ones_equiv. assert (0 < 2 ^ size) by (apply N.neq_0_lt_0, N.pow_nonzero; discriminate). lia.
-Qed.
-
-(* two different, fully defined 12-bit values (0x1A0 and 0xB00) print as the same text "1100",
-   with dropLeadingZeros = false; and 0x00AB / 0x1011 (16 bit) both print as "1011" with it set *)
-Theorem formatState_hex_ambiguous_refuted :
-  (wf (st_defined 12 416) /\ wf (st_defined 12 2816)
-   /\ abs (st_defined 12 416) <> abs (st_defined 12 2816)
-   /\ formatState (st_defined 12 416) 16 false = formatState (st_defined 12 2816) 16 false)
-  /\ (abs (st_defined 16 171) <> abs (st_defined 16 4113)
-      /\ formatState (st_defined 16 171) 16 true = formatState (st_defined 16 4113) 16 true
-      /\ formatState (st_defined 16 171) 16 true = list_ascii_of_string "1011").
-Proof.
-  split; [split; [|split; [|split]] | split; [|split]].
-  - apply wf_st_defined; [lia | lia | reflexivity].
-  - apply wf_st_defined; [lia | lia | reflexivity].
-  - vm_compute. discriminate.
-  - vm_compute. reflexivity.
-  - vm_compute. discriminate.
-  - vm_compute. reflexivity.
-  - vm_compute. reflexivity.
-Qed.
+Example formatState_hex_regression :
+  formatState (st_defined 16 171) 16 true = list_ascii_of_string "AB"
+  /\ formatState (st_defined 16 4113) 16 true = list_ascii_of_string "1011"
+  /\ formatState (st_defined 12 416) 16 false = list_ascii_of_string "1A0"
+  /\ formatState (st_defined 12 2816) 16 false = list_ascii_of_string "B00"
+  /\ formatState (st_defined 16 171) 16 false = list_ascii_of_string "00AB".
+Proof. repeat split; vm_compute; reflexivity. Qed.
 
 (* ---- witness 2: a valid 22-digit octal literal is rejected (assertion in insertNonStraddling:
         digit 21 occupies bits 63..65), 21 digits are accepted ---- *)
@@ -92,15 +146,16 @@ Proof.
   - eexists. split; vm_compute; reflexivity.
 Qed.
 
-(* ---- witness 3: the `clean` hypothesis of abs_resize is necessary.  A representation whose last
-        word carries bits above `size` (exactly what createRandomDefaultBitVectorState /
-        createDefinedRandomDefaultBitVectorState produce: they fill whole words) is well-formed,
-        equal (operator==) to its cleaned copy, and yet growing both by resize gives different
-        containers: resize exposes the stale bits instead of zeros. ---- *)
+(* ---- the `clean` hypothesis of abs_resize is necessary: a representation whose last word carries
+        bits above `size` is well-formed and equal (operator==) to its cleaned copy, and yet growing
+        both by resize gives different containers.  No modelled operation produces such a state
+        (every one preserves `clean`, see BvsSeq.step_correct); writing whole words through data()
+        does, which is why createRandom*DefaultBitVectorState re-mask with resize() since /repo 25f5b7d
+        (regression-probed by the harness on every run). ---- *)
 Definition st_dirty : bvs := {| bsize := 10; planes := [[0x7FF]; [N.ones 64]] |}.
 Definition st_cleaned : bvs := {| bsize := 10; planes := [[0x3FF]; [0x3FF]] |}.
 
-Theorem resize_exposes_stale_tail_refuted :
+Theorem resize_clean_hypothesis_necessary :
   wf st_dirty /\ wf st_cleaned /\ abs st_dirty = abs st_cleaned /\ eqS st_dirty st_cleaned = true
   /\ abs (resize st_dirty 20) <> resize_spec (abs st_dirty) 20
   /\ eqS (resize st_dirty 20) (resize st_cleaned 20) = false.
